@@ -295,8 +295,16 @@ class SABR():
         coeffs = [coeff3, coeff2, coeff1, coeff0]
         roots = np.roots(coeffs)
 
-        # Selecting the smallest positive real root
-        alpha = np.min([coeff.real for coeff in roots if coeff.real > 0])
+        # Selecting the smallest positive real root (the real part of a
+        # complex conjugate pair is not a root of the cubic)
+        real_roots = [coeff.real for coeff in roots
+                      if coeff.real > 0
+                      and abs(coeff.imag) <= 1e-10 * max(1.0, abs(coeff.real))]
+
+        if len(real_roots) == 0:
+            raise FinError("No positive real root for alpha.")
+
+        alpha = np.min(real_roots)
         self.alpha = alpha
 
 ###############################################################################
